@@ -84,7 +84,7 @@ func c26Enabled(x *scn.Exec) []mc.Event {
 			var out []mc.Event
 			for _, op := range c26OperatorOps {
 				if !strings.Contains(done, op+",") {
-					out = append(out, mc.Event{Name: "c26op", Arg: op, Dev: 1})
+					out = append(out, mc.Event{Name: "c26op", Arg: op, Dev: 1, NoCrash: true})
 				}
 			}
 			return out
@@ -97,7 +97,7 @@ func c26Enabled(x *scn.Exec) []mc.Event {
 	if done, _ := x.Ctx["c26probed"].(int); done >= 2 {
 		return nil
 	}
-	return []mc.Event{{Name: "c26probe"}}
+	return []mc.Event{{Name: "c26probe", NoCrash: true}}
 }
 
 func c26Apply(x *scn.Exec, e mc.Event) bool {
@@ -213,12 +213,17 @@ func c26Apply(x *scn.Exec, e mc.Event) bool {
 		ln.sent = nil // initial sync may poll connected peers; only answers to the peer's own messages are judged
 		ln.mu.Unlock()
 		payload, _ := json.Marshal(map[string]any{"version": 7, "assets": []string{"btc", "lbtc"}, "peer_allowed": true, "btc_swap_out_premium_rate_ppm": 1234})
-		for _, mt := range []messages.MessageType{messages.MESSAGETYPE_POLL, messages.MESSAGETYPE_REQUEST_POLL} {
-			select {
-			case ln.ch <- peersync.CustomMessage{From: bID, Type: mt, Payload: payload}:
-			case <-time.After(time.Second):
+		unknownAsset, _ := json.Marshal(map[string]any{"version": 7, "assets": []string{"doge"}, "peer_allowed": true})
+		futureVersion, _ := json.Marshal(map[string]any{"version": 99, "assets": []string{"btc"}, "peer_allowed": true})
+		// well-formed and unparseable capability payloads: a quarantined peer gets no answer to any of them
+		for _, pl := range [][]byte{payload, unknownAsset, futureVersion, []byte("not json"), []byte("null"), {}} {
+			for _, mt := range []messages.MessageType{messages.MESSAGETYPE_POLL, messages.MESSAGETYPE_REQUEST_POLL} {
+				select {
+				case ln.ch <- peersync.CustomMessage{From: bID, Type: mt, Payload: pl}:
+				case <-time.After(time.Second):
+				}
+				synctest.Wait()
 			}
-			synctest.Wait()
 		}
 		ln.mu.Lock()
 		sent := append([]string{}, ln.sent...)
@@ -253,11 +258,11 @@ func oracleC26(x *scn.Exec) []mc.Violation {
 func init() {
 	register(&PropSpec{
 		ID: "C26", Level: "model_checking",
-		Rule: "explicit-state BFS of both maker roles from the announcement with a silent / cancelling / misbehaving peer and up to two operator actions on the running policy (reload, allow-list add / remove of another peer, disable+enable) to every history ending in a CSV refund (real policy.Policy on a real file as the swap service's policy); in each such state, also after a restart that re-reads the file: the file content, a policy re-created from it, incoming swap-in/out requests, local SwapIn/SwapOut and poll / request_poll through a real peersync.PeerSync are probed",
+		Rule: "explicit-state BFS of both maker roles from the announcement with a silent / cancelling / misbehaving peer and up to two operator actions on the running policy (reload, allow-list add / remove of another peer, disable+enable) to every history ending in a CSV refund (real policy.Policy on a real file as the swap service's policy); in each such state, also after a restart that re-reads the file: the file content, a policy re-created from it, incoming swap-in/out requests, local SwapIn/SwapOut and poll / request_poll (well-formed and unparseable payloads) through a real peersync.PeerSync are probed; crash points right after every durable store write (thorough: at every effect operation)",
 		Families: func(tier string) []Family {
 			return mkFamilies(famOpt{announced: true, chains: bothChain, roles: makers, backends: []bool{false},
 				flags:  scn.Flags{Blocks: true, Time: true, Restart: true, Drop: true, Inject: true, MaxTime: 2, MaxBlocks: 2, NoWinJump: true},
-				bounds: pick(tier, mc.Bounds{MaxDepth: 5, MaxDev: 2, Budget: 80 * time.Second, NoCrash: true}, mc.Bounds{MaxDepth: 7, MaxDev: 3, Budget: 10 * time.Minute}),
+				bounds: pick(tier, mc.Bounds{MaxDepth: 5, MaxDev: 2, Budget: 80 * time.Second, CrashAfterStore: true}, mc.Bounds{MaxDepth: 7, MaxDev: 3, Budget: 10 * time.Minute}),
 				tweak: func(f *Family) {
 					f.Cfg.Setup = c26Setup
 					f.Cfg.NodeCfg = c26NodeCfg
